@@ -34,6 +34,10 @@ CHECKS = {
          "Generated fault-sequence search: for each generated pipeline, input sequence and fault plan, the raised instance must reach the emit caller, every node's observed output must equal the documented function of its observed input with failing invocations removed (state kept), and failed elements' counters must never schedule the callback. Exploration only.",
          "Trusted: local reference models; collect/slice (upstream state after a downstream failure is unspecified), remaining siblings/pieces after a failure (unspecified) are avoided by construction.",
          "DESIGN.md section 4 C16"),
+ "C14": ("Hypothesis-generated interleavings of arrivals and consumer completions around latest() on the virtual loop; subsequence/monotonicity oracle + newest-delivered-at-quiescence",
+         "Generated-schedule search over all interleavings expressible at event-loop granularity; the end-state liveness clause is decided in the bounded form 'input stopped, consumer free, loop idle => newest delivered', sound on a harness-owned single-threaded loop. Exploration only.",
+         "Trusted: virtual loop; provenance ids identify elements.",
+         "DESIGN.md section 4 C14"),
 }
 NOT_YET = "check not built yet in this session (the property is decidable with this technique; see DESIGN.md section 4)"
 
